@@ -179,6 +179,12 @@ func c03Judge(c c03Case, checkIDs bool) c03Verdict {
 		v.Clauses = append(v.Clauses, "no-success-response-for-a-completed-request")
 		return v
 	}
+	c03CheckSuccess(&v, m, t, c.TimeFmt, c.RealClock, t0, t1, checkIDs)
+	return v
+}
+
+// c03CheckSuccess compares a decoded Success reply field by field with the reference record t.
+func c03CheckSuccess(v *c03Verdict, m *obs.Msg, t *cbTruth, timeFmt string, realClock bool, t0, t1 time.Time, checkIDs bool) {
 	v.Class = "success:" + m.Kind
 	bad := func(cl string, got, want any) {
 		v.Clauses = append(v.Clauses, cl)
@@ -230,7 +236,7 @@ func c03Judge(c c03Case, checkIDs bool) c03Verdict {
 	}
 	// validity window
 	layout := msg.TimeLayout
-	if c.TimeFmt == "seconds" {
+	if timeFmt == "seconds" {
 		layout = "2006-01-02T15:04:05Z"
 	}
 	ii := resp.A("IssueInstant")
@@ -239,7 +245,7 @@ func c03Judge(c c03Case, checkIDs bool) c03Verdict {
 	eq("conditions-notbefore", cond.A("NotBefore"), ii)
 	eq("authninstant", as.Path("AuthnStatement").A("AuthnInstant"), ii)
 	eq("subjectconfirmation-notonorafter", scd.A("NotOnOrAfter"), cond.A("NotOnOrAfter"))
-	if !c.RealClock {
+	if !realClock {
 		eq("issueinstant-is-now", ii, world.Now.Format(layout))
 		eq("notonorafter-is-now-plus-lifetime", cond.A("NotOnOrAfter"), world.Now.Add(5*time.Minute).Format(layout))
 	} else {
@@ -270,8 +276,7 @@ func c03Judge(c c03Case, checkIDs bool) c03Verdict {
 	if si := as.Path("AuthnStatement").A("SessionIndex"); si == "" {
 		bad("sessionindex-missing", si, "non-empty")
 	}
-	return v
-}
+	}
 
 var _ = xt.NSSaml
 
@@ -279,6 +284,9 @@ func init() { Registry["C03"] = runC03 }
 
 func runC03(ctx Ctx) int {
 	world.PinClock()
+	if rc, ok := concDispatch("C03", ctx); ok {
+		return rc
+	}
 	run := ev.NewRun("C03")
 	run.Rule = "stored-request fields (request ID, consumer URL, RelayState, audience entity) and user-record fields over the 16-symbol S_xml alphabet with <= 1 (quick) / <= 2 (thorough) fields off default, x 13 user-record shapes (each standard attribute unset, 0-2 custom attributes with 0-3 values, FriendlyName/NameFormat set/unset, name clashes) x {POST, Redirect} x 7 configurations (static / static with path / host-derived x 2 hosts / custom time format / custom metadata endpoint / rsa-sha1); pinned clock (exact instants) plus one real-clock pass; plus histories of two callbacks for different users on one provider, the earlier one healthy or refused because one storage operation failed (10 operation/failure kinds incl. a user-info lookup that fails after some setters ran); plus environment deviations at the callback (entity lookup fails while the stored request records an alias of the entity ID; application unregistered; application reassigned to another entity). The reply is decoded by x/net/html / raw query splitting + the harness XML tree and compared field by field with a reference built from the records the storage served"
 	run.Assume = []string{"order between attributes is not claimed (custom attributes live in a Go map); order within a value list is", "the lifetime is the library default of 5 minutes (not configurable through an exported option)"}
@@ -377,6 +385,11 @@ func runC03(ctx Ctx) int {
 	for _, c := range real {
 		report(c, c03Judge(c, true))
 	}
+	cb, cs := 1, 120
+	if run.Tier == "thorough" {
+		cb, cs = 2, 1500
+	}
+	runConc(run, "C03", cb, cs)
 	run.Sample(cases[0])
 	run.Sample(cases[len(cases)/2])
 	run.Sample(cases[len(cases)-1])
